@@ -263,6 +263,13 @@ func (w *scribbleWorld) Exec(p *Plan, st *RunStats) *Violation {
 			o.Fail("C16", "container-reached", "%s changed the container: observers %s, model %s", what, g, m)
 		}
 	}
+	checkSnaps := func(by string) {
+		for _, sn := range snaps {
+			if !sn.scribbled && !sameSlice(sn.slice, sn.copy) {
+				o.Fail("C16", "snapshot-changed", "the slice returned by %s at op %d was changed by %s: now %v, was %v", sn.what, sn.takenAt, by, sn.slice.Interface(), sn.copy.Interface())
+			}
+		}
+	}
 	for _, op := range p.Ops {
 		op := op
 		st.Ops++
@@ -282,6 +289,7 @@ func (w *scribbleWorld) Exec(p *Plan, st *RunStats) *Violation {
 					}
 					scribbleOn(sn)
 				}
+				checkSnaps("the caller's writes to a slice returned later (or an earlier operation)") // two returned slices never share memory
 			case "ScribbleSnap":
 				for _, sn := range snaps {
 					if !sn.scribbled {
@@ -296,15 +304,12 @@ func (w *scribbleWorld) Exec(p *Plan, st *RunStats) *Violation {
 					same("writing to slices returned by Values()/Keys()")
 				}
 			case "CheckSnap":
-				for _, sn := range snaps {
-					if !sn.scribbled && !sameSlice(sn.slice, sn.copy) {
-						o.Fail("C16", "snapshot-changed", "the slice returned by %s at op %d was changed by later container operations: now %v, was %v", sn.what, sn.takenAt, sn.slice.Interface(), sn.copy.Interface())
-					}
-				}
+				checkSnaps("later container operations")
 			case "Sorted":
 				typedSortedProbe(o, op.ID)
 				s.(SortedSubject).SortedProbe(o)
 				same("GetSortedValues/GetSortedValuesFunc")
+				checkSnaps("GetSortedValues/GetSortedValuesFunc (or an earlier operation)") // a snapshot is the caller's alone: sorting a later one does not reorder it
 			default:
 				if len(op.A) > 0 && (op.N == "Add" || op.N == "Append" || op.N == "Prepend" || op.N == "Insert" || op.N == "Push" || op.N == "New" || op.N == "Remove") {
 					if _, ok := s.(Scribbler); ok && s.ModelSize()+len(op.A) > 0 {
